@@ -8,6 +8,7 @@ import (
 	"math/rand"
 	"os"
 	"path/filepath"
+	"strconv"
 	"strings"
 	"sync"
 	"time"
@@ -307,9 +308,15 @@ func openSQL(path string) (*sql.DB, persistence.LogStatePersistence) {
 	return db, psql.NewPersistence(db)
 }
 
-// productionMaxOpenConns is what cmd/omniwitness/monolith.go configures (checked against the source by the
-// extractor: Generated/Facts.lean).
-const productionMaxOpenConns = 1
+// productionMaxOpenConns is what cmd/omniwitness/monolith.go passes to db.SetMaxOpenConns, as extracted from
+// the working tree by tools/extract.py (0 = the call is absent: unlimited pool); the Lean side has the same
+// number as Facts.maxOpenConns and the theorem C05_pool_is_single about it.
+var productionMaxOpenConns = func() int {
+	if v, err := strconv.Atoi(os.Getenv("VERIF_MAXOPENCONNS")); err == nil {
+		return v
+	}
+	return 1
+}()
 
 // ---------------------------------------------------------------- fault scenario (C07, C03)
 
